@@ -212,6 +212,15 @@ pub fn device_for(file: &File) -> Option<Arc<dyn SimDevice>> {
     controller().and_then(|c| c.device_for(file))
 }
 
+/// What the kernel demands of a transfer on an O_DIRECT descriptor: memory, length and file
+/// offset aligned to the logical block size.
+pub fn check_direct_io(ptr: *const u8, len: usize, offset: u64) -> io::Result<()> {
+    if ptr as usize % 512 != 0 || len % 512 != 0 || offset % 512 != 0 {
+        return Err(io::Error::from_raw_os_error(22));
+    }
+    Ok(())
+}
+
 /// Simulated process restart for process-wide registries.
 pub fn process_restart() {
     #[cfg(target_os = "linux")]
